@@ -249,12 +249,13 @@ KANI_UNITS["C03"] = dict(
     prop="C03", crate="varpulis-runtime",
     appends=[("crates/varpulis-runtime/src/sase.rs", "__vpv_c03", "contracts/kani/c03.rs")],
     grade="K-bounded(predicate trees of depth <= 3; alias names fixed to \"b\" / \"other\")", level="other", timeout=3000, harness_timeout=600, jobs=8,
-    native_grade="bounded(native exhaustive enumeration: n <= 5 Kleene events with attribute in 0..=2, 6 comparison operators + no filter, every cap 1..=2^n)",
-    functions=["varpulis-runtime/src/sase.rs: classify_predicate (Compare, CompareRef, And, Or, Not arms) (Kani)",
+    native_grade="bounded(native exhaustive enumeration: classify_predicate — 120 000 predicate trees of depth <= 3; enumerate_with_filter — n <= 5 Kleene events with attribute in 0..=2, 6 comparison operators + no filter, every cap 1..=2^n)",
+    functions=["varpulis-runtime/src/sase.rs: classify_predicate (Compare, CompareRef, And, Or, Not arms) (native enumeration)",
                "varpulis-runtime/src/sase.rs: enumerate_with_filter, evaluate_deferred_predicate (native enumeration)"],
-    explanation=("classify_predicate decides WHICH Kleene filters are enumerated over subsets: cells over every leaf kind (constant comparison, comparison with the Kleene alias itself, "
-                 "comparison with another alias) under Not / And / Or show it answers Inconsistent exactly when the predicate contains a self-reference. "
-                 "Predicate::Expr leaves (expr_references_alias) are not covered. enumerate_with_filter / evaluate_deferred_predicate go through FxHashMap captures and the ZDD iterator "
+    explanation=("BOUNDED STAND-INS run natively (no Kani cell is left in this part: with concrete alias names CBMC added nothing over running the function and needed > 480 s / 3.5 GB per "
+                 "cell). classify_predicate decides WHICH Kleene filters are enumerated over subsets: for every predicate tree of depth <= 2 (depth 3 with one small operand) over the leaf "
+                 "kinds constant comparison / comparison with the Kleene alias itself / comparison with another alias under Not / And / Or it answers Inconsistent exactly when the tree "
+                 "contains a self-reference (and Consistent when there is no Kleene alias). Predicate::Expr leaves (expr_references_alias) are not covered. enumerate_with_filter / evaluate_deferred_predicate go through FxHashMap captures and the ZDD iterator "
                  "(outside both verifiers) and are covered by a BOUNDED STAND-IN run natively: for n <= 5 accumulated events, every self-referencing comparison filter and every cap, the "
                  "number of matches is min(cap, number of non-empty ordered subsets whose consecutive members satisfy the filter); without a filter min(cap, 2^n - 1)."),
     assumptions=["bounded predicate shapes; Predicate::Expr leaves not covered", "enumerate_with_filter: bounded native enumeration only; which subset a match stands for is not observable — counts only"],
